@@ -908,7 +908,7 @@ def mode_contracts(reg):
         if z3.is_int_value(z3.simplify(on0)) and z3.simplify(on0).as_long() == 0:
             if lc.i is None:
                 raise ops.Unsupported("growing buffer in a loop without an iteration index")
-            return on == 16 * lc.i
+            return on == 16 * block_index(lc)
         return on == n
 
     def env_items(st):
@@ -941,6 +941,30 @@ def mode_contracts(reg):
                     if isinstance(x, ast.Name) and x.id == n.targets[0].id and isinstance(y, ast.Constant) and isinstance(y.value, int):
                         out.append((x.id, y.value))
         return out
+
+    def blocks_before(lc):
+        """number of blocks already finished when the loop is entered (a peeled first block, a loop that starts at block 1): the
+        entry value of the counter the loop advances by one block size, when that is a concrete multiple of 16; else 0"""
+        for (nme, step) in induction(lc):
+            v0 = lc.entry.lookup(nme)
+            if step != 16 or v0 is None:
+                continue
+            try:
+                t = z3.simplify(ops.int_term(v0))
+            except Exception:  # noqa -- not an integer local
+                continue
+            if z3.is_int_value(t) and t.as_long() > 0 and t.as_long() % 16 == 0:
+                return t.as_long() // 16
+        return 0
+
+    def block_index(lc):
+        """index of the block the coming iteration works on = blocks finished so far"""
+        k0 = blocks_before(lc)
+        if k0 == 0:
+            return lc.i
+        if lc.i is None:
+            raise ops.Unsupported("peeled loop without an iteration index")
+        return lc.i + k0
 
     def counters_ok(lc):
         cs = []
@@ -978,7 +1002,7 @@ def mode_contracts(reg):
         def inv_point(lc, j):
             n, a = M.arr_of(param(lc, "data"))
             on, oa = out_buffer(lc)
-            return M.ecb_at(fns, round_keys_of(lc), a, oa, lc.i, j)
+            return M.ecb_at(fns, round_keys_of(lc), a, oa, block_index(lc), j)
 
         def post(c):
             n, a = M.arr_of(c.args["data"])
@@ -1033,12 +1057,12 @@ def mode_contracts(reg):
             if ch is not None:
                 v = lc[ch]
                 cs.append((z3.IntVal(len(v.items)) if isinstance(v, VBytes) else v.length) == 16)
-                cs += [p_ == c_ for p_, c_ in zip(prev_terms(v), M.chain(lc.i, iva, chained))]
+                cs += [p_ == c_ for p_, c_ in zip(prev_terms(v), M.chain(block_index(lc), iva, chained))]
             return z3.And(cs)
 
         def inv_point(lc, j):
             n, a, iva, on, oa = parts(lc)
-            return at(round_keys_of(lc), iva, a, oa, lc.i, j)
+            return at(round_keys_of(lc), iva, a, oa, block_index(lc), j)
 
         def post(c):
             n, a = M.arr_of(c.args["data"])
